@@ -235,7 +235,8 @@ class AlgebraMonitor:
         # computed from (|A||P||A|^T + |Q|), not even their leading digits are determined by the float operands
         with onp.errstate(all="ignore"):
             canc = float(onp.max(onp.abs(onp.diag(By)) / onp.maximum(onp.abs(onp.diag(Pyref)), 1e-300))) if Pyref.size else 1.0
-        if not math.isfinite(kc) or kc > 1e6 or canc > 1e6:
+        gains_finite = bool(onp.all(onp.isfinite(G)) and onp.all(onp.isfinite(g)) and onp.all(onp.isfinite(Qb)))
+        if not math.isfinite(kc) or kc > 1e6 or canc > 1e6 or (not gains_finite and not math.isfinite(kc)):
             self.counts["revert_gain_check_skipped_ill_conditioned"] = self.counts.get("revert_gain_check_skipped_ill_conditioned", 0) + 1
             e2 = e3 = e4 = 0.0  # only the marginal of y is decidable when the innovation covariance is (numerically) singular
         else:
@@ -286,12 +287,21 @@ class AlgebraMonitor:
         uf = uu if k == "dense" else (uu.reshape(-1) if k == "isotropic" else uu.T.reshape(-1))
         if uf.shape != m.shape:
             return
-        try:
-            L = onp.linalg.cholesky(P)
-        except onp.linalg.LinAlgError:
+        if not onp.all(onp.isfinite(P)) or not onp.any(P):
             return
-        cond = onp.max(onp.diag(L)) / max(onp.min(onp.diag(L)), 1e-300)
-        ev = onp.linalg.eigvalsh((P + P.T) / 2)
+        # work on the correlation-like matrix D^-1 P D^-1 (a common or diagonal scaling changes neither the decision
+        # "numerically singular" nor the log-density other than through log det D); avoids under/overflow at 1e-24 P
+        dsc = onp.sqrt(onp.abs(onp.diag(P)))
+        dsc = onp.where(dsc > 0, dsc, 1.0)
+        Pn = P / onp.outer(dsc, dsc)
+        try:
+            Ln = onp.linalg.cholesky(Pn)
+            ev = onp.linalg.eigvalsh((Pn + Pn.T) / 2)
+        except onp.linalg.LinAlgError:
+            self.counts["logpdf_skipped_singular"] = self.counts.get("logpdf_skipped_singular", 0) + 1
+            return
+        L = dsc[:, None] * Ln
+        cond = onp.max(onp.diag(Ln)) / max(onp.min(onp.diag(Ln)), 1e-300)
         if cond > 1e7 or onp.min(ev) <= 1e-13 * onp.max(ev):
             # numerically singular covariance (exactly known coefficients): the density is not defined
             self.counts["logpdf_skipped_singular"] = self.counts.get("logpdf_skipped_singular", 0) + 1
